@@ -57,14 +57,15 @@ def obligations(tier):
     O = ['{"?":1,"?":2}', ' { "?" : 1 , "?" : 2 } ', '{"?":?,"?":"?"}', '{"b":{"?":1,"?":2},"a":[{"?":1,"?":2}]}',
          '{"%EE??":1,"%F0%90??":2}', '{"%F0%9F%98?":1,"%EF%BF?":2,"?":3}', '{"\\u00??":1,"?":2}', '{"c":1,"?":2,"a":3}']
     if not q:
-        O += ['{"?":1,"??":2,"?":3}', '{"??":1,"??":2}', '{"\\uD83D\\uDE0?":1,"\\uFF??":2}', '{"\\u????":1,"%EF%BF?":2}', '[{"?":[],"?":{}},{"?":1,"?":2}]',
-              '{"?":1,\n\t"?":{"?":2 , "?":3}}', '{"%F0???":1,"%EE??":2}', '{"?":1,"?":2,"?":3,"?":4}']
+        O += ['{"?":1,"??":2,"?":3}', '{"??":1,"??":2}', '{"\\uFF??":1,"\\uD83D\\uDE0?":2}', '{"\\u????":1,"%EF%BF?":2}', '[{"?":[],"?":{}},{"?":1,"?":2}]',
+              '{"?":1,\n\t"?":{"?":2 , "?":3}}', '{"%EE??":1,"%F0???":2}', '{"?":1,"?":2,"?":3,"?":4}']
     for i, t in enumerate(O):
         L.append(ob("order/%d" % i, P, "VerifC13Canon", [t, 0], covers=["accept", "reject", "reordered"]))
     # ---- class
     C = [('{"?":1,"?":2}', '{"?":2,"?":1}', "10", 2, 0), ('{"?":1,"?":2}', '{"?":2,"?":1}', "10", 2, 3),
          ('{"?":1,"?":[2],"?":{}}', '{"?":{},"?":1,"?":[2]}', "201", 3, 1), ('{"a?":"?","b":{"?":1,"b":2}}', '{"b":{"b":2,"?":1},"a?":"?"}', "201", 3, 2),
-         ('{"%EE??":1,"%F0%90??":2}', '{"%F0%90??":2,"%EE??":1}', "2301", 4, 3)]
+         ('{"%EE??":1,"%F0%90??":2}', '{"%F0%90??":2,"%EE??":1}', "2301", 4, 3),
+         ('{"?":[100,-0,1.5,1e21],"?":12345678901234567890}', '{"?":12345678901234567000,"?":[1E+2,0.0,15e-1,1000000000000000000000]}', "10", 2, 1)]
     if not q:
         C += [('{"a?":"?","?":{"?":1,"b":2}}', '{"?":{"b":2,"?":1},"a?":"?"}', "2301", 4, 2), ('{"??":1,"??":2}', '{"??":2,"??":1}', "2301", 4, 3), ('{"?":1,"?":2,"?":3}', '{"?":3,"?":2,"?":1}', "210", 3, 3),
               ('[{"?":?,"?":"?"}]', ' [ { "?" : "?" , "?" : ? } ] ', "2301", 4, 2), ('{"%F0%9F??":1,"%EF%BF?":2,"?":3}', '{"?":3,"%EF%BF?":2,"%F0%9F??":1}', "3201", 4, 3)]
@@ -74,4 +75,7 @@ def obligations(tier):
     table = "|".join("%s>%s" % (a, b) for a, b in NUMS)
     for t in ("#", "[#]", '{"a":[1,#]}'):
         L.append(ob("num/%s" % t, P, "VerifC13Num", [t, table], covers=["respelled", "verbatim"]))
+    only = os.environ.get("VERIF_ONLY")  # development aid: run the obligations whose id contains this text
+    if only:
+        L = [o for o in L if only in o["id"]]
     return L
